@@ -199,6 +199,9 @@ def boundary_float_texts(seed, quick):
     d, p = exact_digits(Fraction((1 << 53) + 1))          # a tie; digits far beyond the buffer decide it
     for z in (700, 780, 790, 795, 800, 810, 900):
         add(d + "." + "0" * z + "1", d + "." + "0" * z, "9007199254740992." + "9" * z, d + "e0", "0." + d + "0" * z + "1e16")
+    # ... every total length around the buffer size (the text just fits, fits exactly, overflows by one)
+    for z in range(770, 816):
+        add(d + "." + "0" * z + "1", d + "0" * z + "1e-%d" % (z + 1), d + "0" * z + "1", "0.000" + d + "0" * z + "1e19")
     d, p = exact_digits(minsub / 2)
     add(sci(d + "0" * 100 + "1", p), sci(d[:-1] + "4" + "9" * 200, p), positional(d + "1", p), positional(d, p))
     add("123456789" * 100, "0." + "123456789" * 100, ("123456789" * 40) + "e-360", ("987654321" * 89) + "e-1100")
